@@ -82,6 +82,12 @@ class Calls(Exec):
                 raise Unsupported('call of an opaque function value', node)
             if k == 'external':
                 return self.call_external(st, w[1], args, kwargs, node)
+            if k == 'anystr':
+                self.note('configuration data: an option value used as a string is assumed to be a str')
+                arr = z3.Function('Any_%s_arr' % w[2], IntS, ArrII)(w[1].t)
+                ln = z3.Function('Any_%s_len' % w[2], IntS, IntS)(w[1].t)
+                st.assume(ln >= 0)
+                return [(st, VStr(arr, z3.IntVal(0), ln))]
         if isinstance(fv, VClass):
             return self.construct(st, fv, args, kwargs, node)
         if isinstance(fv, VAny):
@@ -1054,9 +1060,13 @@ class Calls(Exec):
         if name in ('lower', 'upper'):
             if s.lit is not None:
                 return [(st, VStr(lit=getattr(s.lit, name)()))]
-            self.note('str.lower/upper: opaque (a function of the content; no length axiom)')
-            r = self.make_fresh(st, ('str',), name)
-            return [(st, r)]
+            self.note('str.lower/upper: uninterpreted but deterministic function of the string view (no length axiom)')
+            arr = z3.Function('Str_%s_arr' % name, ArrII, IntS, IntS, ArrII)(s.arr, s.off, s.ln)
+            ln = z3.Function('Str_%s_len' % name, ArrII, IntS, IntS, IntS)(s.arr, s.off, s.ln)
+            st.assume(ln >= 0)
+            # the empty string maps to the empty string
+            st.assume(z3.Implies(s.ln == 0, ln == 0))
+            return [(st, VStr(arr, z3.IntVal(0), ln))]
         if name in ('strip', 'lstrip', 'rstrip'):
             if s.lit is not None and not args:
                 return [(st, VStr(lit=getattr(s.lit, name)()))]
